@@ -181,6 +181,19 @@ class BaseNode(Node):
         else:
             return value
 
+    def raw_value(self):
+        """ Raw (text) form of the value this node currently has
+        """
+        value = self.value.value if isinstance(self.value, Type) else self.value
+        if value is None:
+            return Keyword.NONE
+        elif isinstance(value, (bool, np.bool_)):
+            return Keyword.TRUE if value else Keyword.FALSE
+        elif isinstance(value, (list, np.ndarray)):
+            return json.dumps(np.array(value).tolist())
+        else:
+            return str(value)
+
     def inject_value(self, env:Environment, node=None):
         """ Inject value from a remote source
 
@@ -201,15 +214,7 @@ class BaseNode(Node):
             node.value_raw = nodes
         else:                        # node import
             # inject the value the referenced node currently has (after all its modifications)
-            value = nodes[0].value.value if isinstance(nodes[0].value, Type) else nodes[0].value
-            if value is None:
-                node.value_raw = Keyword.NONE
-            elif isinstance(value, (bool, np.bool_)):
-                node.value_raw = Keyword.TRUE if value else Keyword.FALSE
-            elif isinstance(value, (list, np.ndarray)):
-                node.value_raw = json.dumps(np.array(value).tolist())
-            else:
-                node.value_raw = str(value)
+            node.value_raw = nodes[0].raw_value()
             if not node.units_raw:
                 node.units_raw = nodes[0].units_raw
         
